@@ -703,3 +703,11 @@ add("C10", "benign-worker-renamed", BC2,
     [("            self._process_file, context=context, results=results, rules=rules", "            self._process_one_file, context=context, results=results, rules=rules"),
      ("    def _process_file(\n", "    def _process_one_file(\n")],
     "silent")
+add("C06", "factory-requests-other-rule", "core_codemods/sonar/api.py",
+    [("            requested_rules=[rule_id],", "            requested_rules=[rule_name],")],
+    "fire", "R-REQUESTED-RULES", "from_core_codemod")
+add("C06", "benign-factory-rule-ids-local", "core_codemods/sonar/api.py",
+    [("        rule_url = sonar_url_from_id(rule_id)\n", "        rule_url = sonar_url_from_id(rule_id)\n        tool_rules = [ToolRule(id=rule_id, name=rule_name, url=rule_url)]\n        wanted = [rule.id for rule in tool_rules]\n"),
+     ("                    rules=[\n                        ToolRule(\n                            id=rule_id,\n                            name=rule_name,\n                            url=rule_url,\n                        )\n                    ],\n", "                    rules=tool_rules,\n"),
+     ("            requested_rules=[rule_id],", "            requested_rules=wanted,")],
+    "silent")
